@@ -21,6 +21,10 @@ def run_one(pid: str, tier: str, seed: int) -> int:
         print(f"ANALYSIS-ERROR property={pid} no check implemented")
         write_error_evidence(pid, tier, seed, "no check implemented", t0)
         return 2
+    except Exception as e:
+        print(f"ANALYSIS-ERROR property={pid} check module failed to load: {type(e).__name__}: {e}")
+        write_error_evidence(pid, tier, seed, f"check module failed to load: {e}", t0)
+        return 2
     try:
         chk = Check(pid, tier, seed)
         mod.run(chk)
